@@ -27,6 +27,11 @@ func key(name string) keyPair {
 	if k, ok := keyCache[name]; ok {
 		return k
 	}
+	if name == "ZERO" {
+		// the all-zero public key: nobody can sign for it, but a registration may name it
+		keyCache[name] = keyPair{}
+		return keyPair{}
+	}
 	for i := 0; ; i++ {
 		seed := crypto.Keccak256([]byte(fmt.Sprintf("verif-key/%s/%d", name, i)))
 		pk, err := crypto.ToECDSA(seed)
